@@ -79,6 +79,14 @@ TK = dict(name='FloorTime+tick arithmetic', probe='k19', fam=['tk'], quick=50000
           rule='times 1960-2360, 6 tick sizes, period boundaries +-1ns, beyond-Duration differences')
 LN = dict(name='CountLines/DiffLinesToRunes/LinesStats', probe='k11', fam=['ln'], quick=30000, thorough=600000,
           nontrivial=nt_any, rule='byte strings over {a,b,LF,space,CR,0xff,x} up to 11 bytes; random edit scripts')
+LNC = dict(name='LinesStatsCalculator.Consume (whole commits)', probe='k12', fam=['ln'], quick=40000, thorough=1000000,
+           nontrivial=lambda ops, impl: ops[0].count(':') >= 4,
+           rule='0-6 changes per commit (insert / delete / modify of distinct files), binary blobs, merge commits, scripts with '
+                'multi-byte runes and occasional double deletes; non-trivial = at least two changes')
+ONES = dict(name='OneShotMergeProcessor.ShouldConsumeCommit', probe='k12o', fam=['pl'], quick=10000, thorough=300000,
+            case_start=r'^new$', nontrivial=nt_len(4),
+            rule='replay sequences over 1-8 commits with 0-5 parents, merges replayed once per parent branch (or fewer), adjacent '
+                 'or interleaved, on one shared processor')
 CD = dict(name='Burndown Serialize/Deserialize rows+CSR', probe='k17', fam=['cd'], quick=4000, thorough=80000,
           nontrivial=nt_any, rule='random dense matrices incl. negatives, zeros, 2^32-1; CSR interaction matrices')
 CDC = dict(name='Couples/Devs Serialize/Deserialize (map CSR, names, lines, touched files, ticks)', probe='k17c', fam=['cd'],
@@ -203,7 +211,7 @@ PROPS = {
     'C09': dict(corr=[RUN, HB, HBF, E01]),
     'C10': dict(level='translation_validation', corr=[RES, E10]),
     'C11': dict(corr=[LN, E11]),
-    'C12': dict(corr=[LN, RUN, E14]),
+    'C12': dict(corr=[LN, LNC, ONES, RUN, E14]),
     'C13': dict(corr=[RN]),
     'C14': dict(corr=[RUN, E14]),
     'C15': dict(corr=[TS]),
